@@ -8390,14 +8390,37 @@ func (e *BinaryExpr) String() string { return e.RenderBytes(&bytes.Buffer{}, nil
 func (e *BinaryExpr) RenderBytes(buf *bytes.Buffer, posmap BufPositionsMap) *bytes.Buffer {
 	Begin := buf.Len()
 
-	_ = e.LHS.RenderBytes(buf, posmap)
-	_, _ = fmt.Fprintf(buf, " %s ", e.Op.String())
+	if e.isUnaryMinus() {
+		// Printed as the product "-1 * x" it would lose its grouping as the right operand of
+		// an operator of the same precedence: a / -x must not be read back as (a / -1) * x.
+		_ = buf.WriteByte('-')
+		if posmap != nil {
+			posmap[e.LHS] = Position{Begin: Begin, End: buf.Len()}
+		}
+	} else {
+		_ = e.LHS.RenderBytes(buf, posmap)
+		_, _ = fmt.Fprintf(buf, " %s ", e.Op.String())
+	}
 	_ = e.RHS.RenderBytes(buf, posmap)
 
 	if posmap != nil {
 		posmap[e] = Position{Begin: Begin, End: buf.Len()}
 	}
 	return buf
+}
+
+// isUnaryMinus reports whether e is the product (-1 * x) that the parsers build for a unary
+// minus in front of a variable, a call or a parenthesis (the tree has no node of its own for it).
+// Both parsers read "-x" as exactly this product again, and bind it tighter than any binary operator.
+func (e *BinaryExpr) isUnaryMinus() bool {
+	if lhs, ok := e.LHS.(*IntegerLiteral); !ok || lhs.Val != -1 || e.Op != MUL {
+		return false
+	}
+	switch e.RHS.(type) {
+	case *VarRef, *Call, *ParenExpr:
+		return true
+	}
+	return false
 }
 
 func (e *BinaryExpr) RewriteNameSpace(alias, mst string) {
